@@ -201,6 +201,56 @@ pub fn run(prop: &str, depth: usize) {
                 if t.join().is_err() {
                     fail(prop, "pretty-printing a deep chain panicked");
                 }
+                step("pretty-print a payload of 20 000 lines written as one chunk, below a root with a later sibling, on a 64 KiB stack");
+                let prop2 = prop.to_string();
+                let t = std::thread::Builder::new().stack_size(64 << 10).spawn(move || {
+                    let prop = prop2.as_str();
+                    let mut a: Arena<String> = Arena::new();
+                    let root = a.new_node("root".to_string());
+                    let lines = 20_000usize;
+                    let big: String = (0..lines).map(|i| if i % 7 == 3 { String::new() } else { format!("line {i}") }).collect::<Vec<_>>().join("\n");
+                    root.append_value(big, &mut a);
+                    root.append_value("tail".to_string(), &mut a);
+                    for mode in 0..2 {
+                        let mut out = String::new();
+                        let pr = root.debug_pretty_print(&a);
+                        let r = if mode == 0 { write!(out, "{}", pr) } else { write!(out, "{:#}", pr) };
+                        let got: Vec<&str> = out.lines().collect();
+                        if r.is_err() || got.len() != lines + 2 || got[0] != "root" || got[1] != "|-- line 0" || got[2] != "|   line 1"
+                            || got[4].trim_end() != "|" || got[lines] != format!("|   line {}", lines - 1) || got[lines + 1] != "`-- tail"
+                        {
+                            fail(prop, "a payload of 20 000 lines is not drawn as one block under its guides");
+                        }
+                    }
+                }).expect("spawn");
+                if t.join().is_err() {
+                    fail(prop, "pretty-printing a payload of 20 000 lines panicked");
+                }
+                if !cfg!(debug_assertions) {
+                    step("pretty-print a chain 17 000 levels deep whose last node renders as two lines (17 000 blank guides), all four modes");
+                    let mut a: Arena<String> = Arena::new();
+                    let root = a.new_node("r".to_string());
+                    let mut cur = root;
+                    let depth = 17_000usize;
+                    for k in 1..depth {
+                        cur = cur.append_value(if k + 1 == depth { "x\ny".to_string() } else { "n".to_string() }, &mut a);
+                    }
+                    for mode in 0..4 {
+                        let mut sink = CountSink { bytes: 0, lines: 0 };
+                        let pr = root.debug_pretty_print(&a);
+                        let r = match mode {
+                            0 => write!(sink, "{}", pr),
+                            1 => write!(sink, "{:#}", pr),
+                            2 => write!(sink, "{:?}", pr),
+                            _ => write!(sink, "{:#?}", pr),
+                        };
+                        // (Debug of a String escapes the newline: one line less in modes 2 and 3)
+                        let want = if mode < 2 { depth } else { depth - 1 };
+                        if r.is_err() || sink.lines != want {
+                            fail(prop, &format!("pretty-printing a chain of {depth} only-children gives {} line breaks, expected {want}", sink.lines));
+                        }
+                    }
+                }
             }
             if matches!(prop, "C06" | "C07" | "C08" | "C11") {
                 // counters / indices narrower than usize (a free-list link or a position kept in 16 bits)
@@ -311,6 +361,12 @@ pub fn run(prop: &str, depth: usize) {
                     let (mut a2, mut b2) = (a.clone(), b);
                     for j in 0..3 { if a2.new_node(j) != b2.new_node(j) { fail(prop, &format!("the copy of an arena with {n} slots issues different ids afterwards")); } }
                     if a2 != b2 { fail(prop, &format!("the copy of an arena with {n} slots diverges under further calls")); }
+                }
+                step("round trip after 70 000 / 32 767 / 32 768 / 32 769 reuse cycles of one slot");
+                for cyc in [70_000usize, 32_767, 32_768, 32_769] {
+                    if let Some(why) = crate::deep::cycles_then_round_trip(cyc) {
+                        fail(prop, &why);
+                    }
                 }
                 step("round trip of a chain grown from the top (every child in a higher slot than its parent)");
                 let (a, _) = chain(depth);
